@@ -1838,10 +1838,11 @@ class Container(Element):
         counts[self.get_symbol()] = 0
         identifiers[self] = -1
 
-        connection: Optional[Connection]
-        for connection in self.get_subcircuits().values():
-            if connection is None:
-                continue
+        # The subcircuits of this container (and of any container nested inside
+        # of them) were queued up by process_element.
+        connection: Connection
+        while subcircuits:
+            connection = subcircuits.pop(0)
             [process_element(_) for _ in connection.get_elements(recursive=True)]
 
         return identifiers
